@@ -345,7 +345,10 @@ def post_fix(run, snap, res, args, kwargs):
             continue
         if n_cov <= len(keys) // 2 + 1 and n_cov >= len(keys) // 2 - 1:
             return run.ood(mon, "about-half-the-bins-uncovered")
-        if n_cov <= len(keys) // 2:
+        if n_cov <= len(keys) // 2 and not evs:
+            # documented escape: "skip bias corrections if most bins have no coverage".  Whether it triggers depends on the
+            # class's centring (antitargets are centred with their uncovered bins, which lifts them above the cut-off), so
+            # both outcomes are accepted here: no correction at all, or the full chain as asked.
             expect = []
         if len(evs) != len(expect):
             return run.violate(mon, "wrong-set-of-corrections", f"{cname}: {len(evs)} rolling-median corrections ran, options/columns ask for {expect}", wit)
